@@ -96,6 +96,7 @@ let a_roots = function
 let unhex s =
   let n = String.length s / 2 in
   String.init n (fun i -> Char.chr (int_of_string ("0x" ^ String.sub s (2 * i) 2)))
+let untext s = unhex (String.sub s 1 (String.length s - 1))
 let a_spellings = function
   | L l -> List.map (function A h -> cstring_of_string (unhex h) | _ -> failwith "hex") l
   | _ -> failwith "spellings expected"
@@ -370,6 +371,22 @@ let () =
            let (w', r) = mstep !mworld mi (parse_mop name (List.map parse_arg args)) in
            mworld := w';
            print_endline (if !full then show_res r ^ "\t" ^ show_mdigest (mdigest (mworld_get w' mi))
+                          else show_res r)
+       | ["lex_text"; hx] ->
+           print_endline (show_res (lex_show_text (cstring_of_string (untext hx))))
+       | ["parse_text"; hx] ->
+           print_endline (show_res (parse_show_text (cstring_of_string (untext hx))))
+       | [m; "add_expr_text"; hx] when String.length m > 1 && m.[0] = 'a' ->
+           let m = nat_of_int (int_of_string (String.sub m 1 (String.length m - 1))) in
+           let (w', r) = astep_expr_text !aworld m (cstring_of_string (untext hx)) in
+           aworld := w';
+           print_endline (if !full then show_res r ^ "\t" ^ show_adigest (adigest (aworld_get w' m))
+                          else show_res r)
+       | [m; "add_expr_text"; hx] ->
+           let m = nat_of_int (int_of_string m) in
+           let (w', r) = step_expr_text !world m (cstring_of_string (untext hx)) in
+           world := w';
+           print_endline (if !full then show_res r ^ "\t" ^ show_digest (digest (world2_get w' m))
                           else show_res r)
        | ["parse"; sp] ->
            print_endline (show_res (parse_show (a_spellings (parse_arg sp))))
